@@ -34,6 +34,7 @@ Fixpoint parse_datum (f : nat) (c : list N) : option (cell * list N) :=
   | S f' =>
       match c with
       | 1 :: s :: m :: r => Some (CNum (Fixnum (if s =? 1 then - Z.of_N m else Z.of_N m)), r)
+      | 11 :: s :: m :: r => Some (CNum (BigInt (if s =? 1 then - Z.of_N m else Z.of_N m)), r)
       | 2 :: b :: r => Some (CBool (negb (b =? 0)), r)
       | 3 :: ch :: r => Some (CChar ch, r)
       | 4 :: k :: r => if k <? 26 then Some (CSym [97 + k], r) else None
@@ -202,6 +203,7 @@ Fixpoint canon (c : cell) {struct c} : text :=
   | CChar ch => [35;92;120] ++ show_hex ch
   | CNil => [40;41]
   | CNum (Fixnum z) => show_Z z
+  | CNum (BigInt z) => show_Z z
   | CNum (Float x) => [35;105] ++ show_hex (Z.to_N (f64_bits x))
   | CNum _ => [35;110]
   | CPair a d =>
